@@ -109,7 +109,8 @@ theorem itResetNone_rel {a b : It root} (h : ItRel L a b) (hs : (Started a ∧ S
     exact ⟨_, _, Den.plain _ _ rfl rfl hr rfl, Den.plain _ _ rfl rfl hr rfl, E.rfl' L hr⟩
 
 /-- The first epoch of two new loaders. -/
-theorem newIt_rel : ItRel L (itReset root (newIt root) none) (itReset root (newIt root) none) := by
+theorem newIt_rel :
+    ItRel L (itReset root (newIt root root.rfresh) none) (itReset root (newIt root root.rfresh) none) := by
   have hr : Node.Reach root (root.rreset root.rfresh none) := Node.Reach.initNone
   exact ⟨_, _, Den.plain _ _ rfl rfl hr rfl, Den.plain _ _ rfl rfl hr rfl, E.rfl' L hr⟩
 
@@ -193,11 +194,28 @@ theorem startSome_rel (hne : NoError root) (restart fa fb : Bool) {a b : It root
 /-- Equivalent Loader state dicts. -/
 def TQ (x y : SD root) : Prop := EQ L x.rootSd y.rootSd
 
+/-- Well-formedness of reachable Loader states: the root object is in a state the Loader may hold; an
+iterator created only for a `state_dict()` is in nobody's hands; without an iterator there is no flag, no
+iterator in hand, and the root is untouched unless a load is pending. -/
+structure WF (s : State root) : Prop where
+  held : Held s.base
+  flag : s.iterForSd = true → s.handle = false
+  noIt : s.it = none → s.iterForSd = false ∧ s.handle = false ∧ (s.pending = none → s.base = root.rfresh)
+
+theorem wf_some {i : It root} {p : Option (SD root)} {f h : Bool} {bs : Run root} (hb : Held bs)
+    (hf : f = true → h = false) : WF (⟨some i, p, f, h, bs⟩ : State root) :=
+  ⟨hb, hf, (fun h0 => nomatch h0)⟩
+
+theorem wf_init : WF (State.init root) :=
+  ⟨Or.inr rfl, (fun h => nomatch h), fun _ => ⟨rfl, rfl, fun _ => rfl⟩⟩
+
 structure LRSt (a b : State root) : Prop where
   pending : ORel (TQ L) a.pending b.pending
   flag : a.iterForSd = b.iterForSd
   handle : a.handle = b.handle
   it : ORel (ItRel L) a.it b.it
+  wfa : WF a
+  wfb : WF b
 
 /-- The Loader-level bisimulation. -/
 structure LR (a b : Sys root) : Prop where
@@ -217,18 +235,21 @@ theorem itRel_held {a b : It root} (h : ItRel L a b) : Held a.r ∧ Held b.r := 
   obtain ⟨x, y, ha, hb, _⟩ := h
   exact ⟨Or.inl ha.reach.2, Or.inl hb.reach.2⟩
 
+/-- `__iter__` on related states: no exception, the flag is down afterwards, related pending states and
+iterators. -/
 theorem iterCore_rel (hne : NoError root) (restart : Bool) {a b : State root} (h : LRSt L a b)
-    (hg : (OkIter a ∧ OkIter b) ∨ a = b) (hd : Bool) :
+    (hg : (OkIter a ∧ OkIter b) ∨ a = b) :
     (iterCore root restart a).err = none ∧ (iterCore root restart b).err = none ∧
-    LRSt L ⟨some (iterCore root restart a).it, (iterCore root restart a).pending,
-        (iterCore root restart a).iterForSd, hd⟩
-      ⟨some (iterCore root restart b).it, (iterCore root restart b).pending,
-        (iterCore root restart b).iterForSd, hd⟩ := by
-  obtain ⟨ia, pa, fa, ha⟩ := a
-  obtain ⟨ib, pb, fb, hb⟩ := b
+    (iterCore root restart a).iterForSd = false ∧ (iterCore root restart b).iterForSd = false ∧
+    ORel (TQ L) (iterCore root restart a).pending (iterCore root restart b).pending ∧
+    ItRel L (iterCore root restart a).it (iterCore root restart b).it := by
+  obtain ⟨ia, pa, fa, ha, ba⟩ := a
+  obtain ⟨ib, pb, fb, hb, bb⟩ := b
   have hp := h.pending
   have hf := h.flag
   have hi := h.it
+  have wa := h.wfa
+  have wb := h.wfb
   simp only at hp hf hi
   subst hf
   rw [iterCore_eq, iterCore_eq]
@@ -236,10 +257,9 @@ theorem iterCore_rel (hne : NoError root) (restart : Bool) {a b : State root} (h
   have start : ∀ (xa xb : It root), Held xa.r → Held xb.r →
       (pa = none → pb = none → ItRel L (itReset root xa none) (itReset root xb none)) →
       (startIt root restart pa fa xa).err = none ∧ (startIt root restart pb fa xb).err = none ∧
-      LRSt L ⟨some (startIt root restart pa fa xa).it, (startIt root restart pa fa xa).pending,
-          (startIt root restart pa fa xa).iterForSd, hd⟩
-        ⟨some (startIt root restart pb fa xb).it, (startIt root restart pb fa xb).pending,
-          (startIt root restart pb fa xb).iterForSd, hd⟩ := by
+      (startIt root restart pa fa xa).iterForSd = fa ∧ (startIt root restart pb fa xb).iterForSd = fa ∧
+      ORel (TQ L) (startIt root restart pa fa xa).pending (startIt root restart pb fa xb).pending ∧
+      ItRel L (startIt root restart pa fa xa).it (startIt root restart pb fa xb).it := by
     intro xa xb hxa hxb hnone
     cases pa with
     | some x =>
@@ -247,24 +267,31 @@ theorem iterCore_rel (hne : NoError root) (restart : Bool) {a b : State root} (h
       | none => exact absurd hp (by simp [ORel])
       | some y =>
         obtain ⟨h1, h2, h3, h4, h5, h6, h7⟩ := startSome_rel L hne restart fa fa hxa hxb hp
-        refine ⟨h1, h2, ?_, ?_, rfl, h7⟩
-        · simp only [h3, h4, ORel]
-        · simp only [h5, h6]
+        refine ⟨h1, h2, h5, h6, ?_, h7⟩
+        simp only [h3, h4, ORel]
     | none =>
       cases pb with
       | some y => exact absurd hp (by simp [ORel])
-      | none => exact ⟨rfl, rfl, trivial, rfl, rfl, hnone rfl rfl⟩
+      | none => exact ⟨rfl, rfl, rfl, rfl, trivial, hnone rfl rfl⟩
   cases ia with
   | none =>
     cases ib with
     | some j => exact absurd hi (by simp [ORel])
-    | none => exact start (newIt root) (newIt root) (Or.inr rfl) (Or.inr rfl) (fun _ _ => newIt_rel L)
+    | none =>
+      have fa0 : fa = false := (wa.noIt rfl).1
+      subst fa0
+      refine start (newIt root ba) (newIt root bb) wa.held wb.held ?_
+      intro h1 h2
+      have e1 : ba = root.rfresh := (wa.noIt rfl).2.2 h1
+      have e2 : bb = root.rfresh := (wb.noIt rfl).2.2 h2
+      subst e1 e2
+      exact newIt_rel L
   | some i =>
     cases ib with
     | none => exact absurd hi (by simp [ORel])
     | some j =>
       cases fa with
-      | true => exact ⟨rfl, rfl, hp, rfl, rfl, hi⟩
+      | true => exact ⟨rfl, rfl, rfl, rfl, hp, hi⟩
       | false =>
         refine start i j (itRel_held L hi).1 (itRel_held L hi).2 ?_
         intro h1 h2
@@ -275,16 +302,19 @@ theorem iterCore_rel (hne : NoError root) (restart : Bool) {a b : State root} (h
           injection e1 with e1
           exact Or.inr e1
 
-theorem lrSt_init : LRSt L (State.init root) (State.init root) := ⟨trivial, rfl, rfl, trivial⟩
+theorem lrSt_init : LRSt L (State.init root) (State.init root) :=
+  ⟨trivial, rfl, rfl, trivial, wf_init, wf_init⟩
 
 theorem next_rel {a b : State root} (h : LRSt L a b) :
     (next root a).1 = (next root b).1 ∧ LRSt L (next root a).2 (next root b).2 := by
-  obtain ⟨ia, pa, fa, ha⟩ := a
-  obtain ⟨ib, pb, fb, hb⟩ := b
+  obtain ⟨ia, pa, fa, ha, ba⟩ := a
+  obtain ⟨ib, pb, fb, hb, bb⟩ := b
   have hp := h.pending
   have hf := h.flag
   have hh := h.handle
   have hi := h.it
+  have wa := h.wfa
+  have wb := h.wfb
   simp only at hp hf hh hi
   subst hh
   cases ha with
@@ -301,17 +331,19 @@ theorem next_rel {a b : State root} (h : LRSt L a b) :
       | some j =>
         have hn := itNext_rel L hi
         simp only [next]
-        exact ⟨by rw [hn.1], hp, hf, rfl, hn.2⟩
+        exact ⟨by rw [hn.1], hp, hf, rfl, hn.2, wf_some wa.held wa.flag, wf_some wb.held wb.flag⟩
 
 theorem stateDict_rel (hne : NoError root) (restart : Bool) {a b : State root} (h : LRSt L a b) :
     ∃ x y, (stateDict root restart a).1 = Except.ok x ∧ (stateDict root restart b).1 = Except.ok y ∧
       TQ L x y ∧ LRSt L (stateDict root restart a).2 (stateDict root restart b).2 := by
-  obtain ⟨ia, pa, fa, ha⟩ := a
-  obtain ⟨ib, pb, fb, hb⟩ := b
+  obtain ⟨ia, pa, fa, ha, ba⟩ := a
+  obtain ⟨ib, pb, fb, hb, bb⟩ := b
   have hp := h.pending
   have hf := h.flag
   have hh := h.handle
   have hi := h.it
+  have wa := h.wfa
+  have wb := h.wfb
   simp only at hp hf hh hi
   subst hh
   cases ia with
@@ -320,18 +352,55 @@ theorem stateDict_rel (hne : NoError root) (restart : Bool) {a b : State root} (
     | none => exact absurd hi (by simp [ORel])
     | some j =>
       have hg := itGet_rel L hi
-      exact ⟨_, _, rfl, rfl, hg.1, hp, hf, rfl, hg.2⟩
+      exact ⟨_, _, rfl, rfl, hg.1, hp, hf, rfl, hg.2, wf_some wa.held wa.flag, wf_some wb.held wb.flag⟩
   | none =>
     cases ib with
     | some j => exact absurd hi (by simp [ORel])
     | none =>
-      have hok : ∀ (p : Option (SD root)) (f : Bool), OkIter (⟨none, p, f, ha⟩ : State root) := by
-        intro p f it hit
+      have hok : ∀ (p : Option (SD root)) (f : Bool) (bs : Run root), OkIter (⟨none, p, f, ha, bs⟩ : State root) := by
+        intro p f bs it hit
         cases hit
-      obtain ⟨e1, e2, hr⟩ := iterCore_rel L hne restart h (Or.inl ⟨hok pa fa, hok pb fb⟩) ha
-      have hg := itGet_rel L hr.it
+      obtain ⟨e1, e2, _, _, hpd, hit⟩ := iterCore_rel L hne restart h (Or.inl ⟨hok pa fa ba, hok pb fb bb⟩)
+      have hg := itGet_rel L hit
+      have hha : ha = false := (wa.noIt rfl).2.1
       simp only [stateDict, e1, e2]
-      exact ⟨_, _, rfl, rfl, hg.1, hr.pending, rfl, rfl, hg.2⟩
+      exact ⟨_, _, rfl, rfl, hg.1, hpd, rfl, rfl, hg.2, wf_some wa.held (fun _ => hha),
+        wf_some wb.held (fun _ => hha)⟩
+
+/-- `load_state_dict` of equivalent state dicts. -/
+theorem load_rel {a b : State root} (h : LRSt L a b) {x y : SD root} (hxy : TQ L x y) :
+    LRSt L (load root a x) (load root b y) := by
+  obtain ⟨ia, pa, fa, ha, ba⟩ := a
+  obtain ⟨ib, pb, fb, hb, bb⟩ := b
+  have hf := h.flag
+  have hh := h.handle
+  have hi := h.it
+  have wa := h.wfa
+  have wb := h.wfb
+  simp only at hf hh hi
+  subst hf hh
+  cases ia with
+  | none =>
+    cases ib with
+    | some j => exact absurd hi (by simp [ORel])
+    | none =>
+      have f0 : fa = false := (wa.noIt rfl).1
+      subst f0
+      exact ⟨hxy, rfl, rfl, trivial,
+        ⟨wa.held, (fun h => nomatch h), fun _ => ⟨rfl, (wa.noIt rfl).2.1, (fun h => nomatch h)⟩⟩,
+        ⟨wb.held, (fun h => nomatch h), fun _ => ⟨rfl, (wb.noIt rfl).2.1, (fun h => nomatch h)⟩⟩⟩
+  | some i =>
+    cases ib with
+    | none => exact absurd hi (by simp [ORel])
+    | some j =>
+      cases fa with
+      | false =>
+        exact ⟨hxy, rfl, rfl, hi, wf_some wa.held (fun h => nomatch h), wf_some wb.held (fun h => nomatch h)⟩
+      | true =>
+        have hh0 : ha = false := wa.flag rfl
+        exact ⟨hxy, rfl, rfl, trivial,
+          ⟨(itRel_held L hi).1, (fun h => nomatch h), fun _ => ⟨rfl, hh0, (fun h => nomatch h)⟩⟩,
+          ⟨(itRel_held L hi).2, (fun h => nomatch h), fun _ => ⟨rfl, hh0, (fun h => nomatch h)⟩⟩⟩
 
 theorem step_LR (hne : NoError root) (restart : Bool) {a b : Sys root} (h : LR L a b) (op : Op)
     (hg : (OkStep a op ∧ OkStep b op) ∨ a = b) :
@@ -345,9 +414,11 @@ theorem step_LR (hne : NoError root) (restart : Bool) {a b : Sys root} (h : LR L
       · exact Or.inl hg
       · exact Or.inr (by rw [hg])
     simp only [step, iter]
-    obtain ⟨e1, e2, hr⟩ := iterCore_rel L hne restart hst hg' true
+    obtain ⟨e1, e2, f1, f2, hpd, hit⟩ := iterCore_rel L hne restart hst hg'
     rw [e1, e2]
-    exact ⟨rfl, h.toks, hr⟩
+    exact ⟨rfl, h.toks, hpd, by rw [f1, f2], rfl, hit,
+      wf_some hst.wfa.held (by rw [f1]; exact fun h => nomatch h),
+      wf_some hst.wfb.held (by rw [f2]; exact fun h => nomatch h)⟩
   | next =>
     have hn := next_rel L hst
     exact ⟨hn.1, h.toks, hn.2⟩
@@ -372,8 +443,11 @@ theorem step_LR (hne : NoError root) (restart : Bool) {a b : Sys root} (h : LR L
       | none => rw [h1, h2] at hget; exact absurd hget (by simp [ORel])
       | some y =>
         rw [h1, h2] at hget
-        exact ⟨rfl, h.toks, hget, rfl, hst.handle, hst.it⟩
-  | abandon => exact ⟨rfl, h.toks, hst.pending, hst.flag, rfl, hst.it⟩
+        exact ⟨rfl, h.toks, load_rel L hst hget⟩
+  | abandon =>
+    refine ⟨rfl, h.toks, hst.pending, hst.flag, rfl, hst.it, ?_, ?_⟩
+    · exact ⟨hst.wfa.held, fun _ => rfl, fun h0 => ⟨(hst.wfa.noIt h0).1, rfl, (hst.wfa.noIt h0).2.2⟩⟩
+    · exact ⟨hst.wfb.held, fun _ => rfl, fun h0 => ⟨(hst.wfb.noIt h0).1, rfl, (hst.wfb.noIt h0).2.2⟩⟩
   | fresh => exact ⟨rfl, h.toks, lrSt_init L⟩
 
 /-- `ops` never makes `iter()` start a new epoch on an iterator from which no item was requested. -/
@@ -394,7 +468,7 @@ theorem obs_LR (hne : NoError root) (restart : Bool) (ops : List Op) {a b : Sys 
     exact ⟨by rw [hs.1, hr.1], hr.2⟩
 
 /-- Every reachable system is related to itself (this is the invariant of reachable systems: its state
-dicts come from reachable root states, its iterator has a logical root state). -/
+dicts come from reachable root states, its iterator has a logical root state, it is well-formed). -/
 theorem inv_exec (hne : NoError root) (restart : Bool) (ops : List Op) {a : Sys root} (h : LR L a a) :
     LR L (exec root restart a ops) (exec root restart a ops) := by
   induction ops generalizing a with
@@ -403,7 +477,6 @@ theorem inv_exec (hne : NoError root) (restart : Bool) (ops : List Op) {a : Sys 
 
 theorem lr_init : LR L (Sys.init root) (Sys.init root) :=
   ⟨⟨rfl, by intro i a b h; simp [Sys.init] at h⟩, lrSt_init L⟩
-
 
 /-- Resuming from the state dict of an iterator `its`: what `__iter__` builds from it (on any iterator
 `it0`) is equivalent to `its` after the `state_dict()` call — or, if `its` is at the end of its epoch and
@@ -452,10 +525,13 @@ theorem resume_it (hne : NoError root) (restart flag : Bool) {its it0 : It root}
         cases hc
 
 
-theorem held_itOr {o : Option (It root)} (h : ORel (ItRel L) o o) : Held (itOr o).r := by
-  cases o with
-  | none => exact Or.inr rfl
-  | some i => exact (itRel_held L h).1
+theorem held_loadIt {s : State root} (h : LRSt L s s) : Held (loadIt s).r := by
+  obtain ⟨si, sp, sf, sh, sb⟩ := s
+  have hi := h.it
+  have w := h.wfa
+  cases si with
+  | none => cases sf <;> exact w.held
+  | some i => cases sf <;> exact (itRel_held L hi).1
 
 /-- System-level resume: `s` is a reachable system whose user is iterating (`_it` exists and is in hand, no
 load pending, not created by `state_dict()`); `r` is any reachable system that knows the state dict `sd`
@@ -470,24 +546,30 @@ theorem resume_sys (hne : NoError root) (restart : Bool) {s r : Sys root} (hs : 
       LR L (exec root restart r [.load s.toks.length, .iter])
         (exec root restart (step root restart s .stateDict).2 [.next, .iter])) := by
   have hb := (step_LR L hne restart hs .stateDict (Or.inr rfl)).2
-  obtain ⟨⟨si, sp, sf, sh⟩, stoks⟩ := s
-  obtain ⟨⟨ri, rp, rf, rh⟩, rtoks⟩ := r
+  have h0 : Held (loadIt r.st).r := held_loadIt L hr.st
+  have wr := hr.st.wfa
+  have ws := hs.st.wfa
+  obtain ⟨⟨si, sp, sf, sh, sb⟩, stoks⟩ := s
+  obtain ⟨rst, rtoks⟩ := r
   simp only at hit hp hf hh hrt
   subst hit hp hf hh hrt
   have hden : ∃ x0, Den its x0 := by
     obtain ⟨x, _, hx, _, _⟩ := hs.st.it
     exact ⟨x, hx⟩
   obtain ⟨x0, hd⟩ := hden
-  have h0 : Held (itOr ri).r := held_itOr L hr.st.it
   obtain ⟨e1, e2, e3, e4, e5⟩ := resume_it L hne restart false hd h0
   have hget : (stoks ++ [(itGet root its).1])[stoks.length]? = some (itGet root its).1 := by simp
   have hbt : LRel (TQ L) (stoks ++ [(itGet root its).1]) (stoks ++ [(itGet root its).1]) := by
     have := hb.toks
     simpa [step, stateDict] using this
-  have hcore : iterCore root restart (load root ⟨ri, rp, rf, rh⟩ (itGet root its).1) =
-      startIt root restart (some (itGet root its).1) false (itOr ri) := by
-    rw [iterCore_eq]
-    cases ri <;> rfl
+  have hbase : (load root rst (itGet root its).1).base = (loadIt rst).r ∨
+      (load root rst (itGet root its).1).base = rst.base := by
+    obtain ⟨ri, rp, rf, rh, rb⟩ := rst
+    cases ri <;> cases rf <;> simp [load, loadIt, newIt]
+  have hheld : Held (load root rst (itGet root its).1).base := by
+    rcases hbase with h | h <;> rw [h]
+    · exact h0
+    · exact wr.held
   constructor
   · intro hcond
     have hcond' : restart = false ∨ (itNext root (itGet root its).2).1 ≠ Out.stop := by
@@ -498,18 +580,19 @@ theorem resume_sys (hne : NoError root) (restart : Bool) {s r : Sys root} (hs : 
         apply hc
         simp only [step, stateDict, next, h]
     have hrel := e4 hcond'
-    simp only [exec, step, hget, iter, hcore, e1, stateDict]
-    exact ⟨hbt, by simp only [e2, ORel], by simp only [e3], rfl, hrel⟩
+    simp only [exec, step, hget, iter, iterCore_load, e1, stateDict]
+    exact ⟨hbt, by simp only [e2, ORel], by simp only [e3], rfl, hrel,
+      wf_some hheld (by rw [e3]; exact fun h => nomatch h), wf_some ws.held (fun h => nomatch h)⟩
   · intro hrs hstop
     have hstop' : (itNext root (itGet root its).2).1 = Out.stop := by
       simp only [step, stateDict, next] at hstop
       injection hstop
     have hrel := e5 hrs hstop'
-    have hb' : iterCore root restart ⟨some (itNext root (itGet root its).2).2, none, false, true⟩ =
+    have hb' : iterCore root restart ⟨some (itNext root (itGet root its).2).2, none, false, true, sb⟩ =
         ⟨none, itReset root (itNext root (itGet root its).2).2 none, none, false⟩ := rfl
-    simp only [exec, step, hget, iter, hcore, e1, stateDict, next, hb']
-    exact ⟨hbt, by simp only [e2, ORel], by simp only [e3], rfl, hrel⟩
-
+    simp only [exec, step, hget, iter, iterCore_load, e1, stateDict, next, hb']
+    exact ⟨hbt, by simp only [e2, ORel], by simp only [e3], rfl, hrel,
+      wf_some hheld (by rw [e3]; exact fun h => nomatch h), wf_some ws.held (fun h => nomatch h)⟩
 
 /-! ### The Boolean side conditions of the model imply the ones used here -/
 
@@ -542,73 +625,220 @@ theorem obs_LR' (hne : NoError root) (restart : Bool) (ops : List Op) {a b : Sys
     obs root restart a ops = obs root restart b ops :=
   (obs_LR L hne restart ops h (good_Good restart ops a ga) (good_Good restart ops b gb)).1
 
-/-! ### `state_dict()` on an existing iterator changes nothing (C08) -/
+/-! ### `state_dict()` changes nothing (C08)
 
-theorem peek_left (restart : Bool) {a b : Sys root} (h : LR L a b) (hi : a.st.it.isSome = true) :
-    LR L (step root restart a .peek).2 b := by
-  obtain ⟨⟨ia, pa, fa, ha⟩, ta⟩ := a
-  cases ia with
-  | none => cases hi
-  | some i =>
+`PU a b`: `a` is `b` after one or more discarded `state_dict()` calls that found no iterator and created
+one (flag up, loaded state consumed); `b` has not created it yet. -/
+
+structure PU (restart : Bool) (a b : Sys root) : Prop where
+  toks : LRel (TQ L) a.toks b.toks
+  wfa : WF a.st
+  wfb : WF b.st
+  bnone : b.st.it = none
+  aflag : a.st.iterForSd = true
+  apend : a.st.pending = none
+  berr : (iterCore root restart b.st).err = none
+  bpend : (iterCore root restart b.st).pending = none
+  it : ∃ ia, a.st.it = some ia ∧ ItRel L ia (iterCore root restart b.st).it
+
+theorem itGet_left {a b : It root} (h : ItRel L a b) : ItRel L (itGet root a).2 b := by
+  obtain ⟨x, y, dx, dy, he⟩ := h
+  obtain ⟨_, x', ex, nx, dx'⟩ := den_get L dx
+  exact ⟨x', y, dx', dy, E.transM L ex he (Or.inl nx.symm)⟩
+
+/-- A discarded `state_dict()` on the left only. -/
+theorem peek_left (hne : NoError root) (restart : Bool) {a b : Sys root} (h : LR L a b ∨ PU L restart a b) :
+    LR L (step root restart a .peek).2 b ∨ PU L restart (step root restart a .peek).2 b := by
+  rcases h with h | h
+  · obtain ⟨⟨ia, pa, fa, ha, ba⟩, ta⟩ := a
+    obtain ⟨⟨ib, pb, fb, hb, bb⟩, tb⟩ := b
     have hst := h.st
-    have hit := hst.it
-    cases hb : b.st.it with
-    | none => rw [hb] at hit; exact absurd hit (by simp [ORel])
-    | some j =>
-      rw [hb] at hit
-      obtain ⟨x, y, dx, dy, he⟩ := hit
-      obtain ⟨_, x', ex, nx, dx'⟩ := den_get L dx
-      have hr : ItRel L (itGet root i).2 j := ⟨x', y, dx', dy, E.transM L ex he (Or.inl nx.symm)⟩
-      refine ⟨h.toks, hst.pending, hst.flag, hst.handle, ?_⟩
-      show ORel (ItRel L) (some (itGet root i).2) b.st.it
-      rw [hb]
-      exact hr
+    have hi := hst.it
+    have wa := hst.wfa
+    have wb := hst.wfb
+    cases ia with
+    | some i =>
+      cases ib with
+      | none => exact absurd hi (by simp [ORel])
+      | some j =>
+        exact Or.inl ⟨h.toks, hst.pending, hst.flag, hst.handle, itGet_left L hi,
+          wf_some wa.held wa.flag, wb⟩
+    | none =>
+      cases ib with
+      | some j => exact absurd hi (by simp [ORel])
+      | none =>
+        have hok : ∀ (p : Option (SD root)) (f h : Bool) (bs : Run root),
+            OkIter (⟨none, p, f, h, bs⟩ : State root) := by
+          intro p f h bs it hit
+          cases hit
+        obtain ⟨e1, e2, _, _, hpd, hit⟩ :=
+          iterCore_rel L hne restart hst (Or.inl ⟨hok pa fa ha ba, hok pb fb hb bb⟩)
+        have hha : ha = false := (wa.noIt rfl).2.1
+        have hpb : (iterCore root restart ⟨none, pb, fb, hb, bb⟩).pending = none := by
+          have hpa : (iterCore root restart ⟨none, pa, fa, ha, ba⟩).pending = none := by
+            rw [iterCore_eq]
+            cases pa with
+            | none => rfl
+            | some x =>
+              simp only [startIt]
+              split
+              · split <;> rfl
+              · rfl
+          rw [hpa] at hpd
+          cases hq : (iterCore root restart ⟨none, pb, fb, hb, bb⟩).pending with
+          | none => rfl
+          | some y => rw [hq] at hpd; exact absurd hpd (by simp [ORel])
+        have hpa : (iterCore root restart ⟨none, pa, fa, ha, ba⟩).pending = none := by
+          have hpa' : ORel (TQ L) (iterCore root restart ⟨none, pa, fa, ha, ba⟩).pending none := hpb ▸ hpd
+          cases hq : (iterCore root restart ⟨none, pa, fa, ha, ba⟩).pending with
+          | none => rfl
+          | some y => rw [hq] at hpa'; exact absurd hpa' (by simp [ORel])
+        have hstep : (step root restart ⟨⟨none, pa, fa, ha, ba⟩, ta⟩ .peek).2 =
+            ⟨⟨some (itGet root (iterCore root restart ⟨none, pa, fa, ha, ba⟩).it).2, none, true, ha, ba⟩, ta⟩ := by
+          simp only [step, stateDict, e1, hpa]
+        rw [hstep]
+        exact Or.inr ⟨h.toks, wf_some wa.held (fun _ => hha), wb, rfl, rfl, rfl, e2, hpb, _, rfl, itGet_left L hit⟩
+  · obtain ⟨ia, hia, hrel⟩ := h.it
+    obtain ⟨⟨oa, pa, fa, ha, ba⟩, ta⟩ := a
+    simp only at hia
+    subst hia
+    refine Or.inr ⟨h.toks, wf_some h.wfa.held h.wfa.flag, h.wfb, h.bnone, h.aflag, h.apend, h.berr, h.bpend, ?_⟩
+    exact ⟨_, rfl, itGet_left L hrel⟩
+
+/-- Any op but `peek` on both sides of `PU`. -/
+theorem step_PU (restart : Bool) {a b : Sys root} (h : PU L restart a b) (op : Op) :
+    (step root restart a op).1 = (step root restart b op).1 ∧
+      (LR L (step root restart a op).2 (step root restart b op).2 ∨
+        PU L restart (step root restart a op).2 (step root restart b op).2) := by
+  obtain ⟨ia, hia, hrel⟩ := h.it
+  have wa := h.wfa
+  have wb := h.wfb
+  have hbn := h.bnone
+  have haf := h.aflag
+  have hap := h.apend
+  have hbe := h.berr
+  have hbp := h.bpend
+  have htk := h.toks
+  obtain ⟨⟨oa, pa, fa, ha, ba⟩, ta⟩ := a
+  obtain ⟨⟨ob, pb, fb, hb, bb⟩, tb⟩ := b
+  simp only at hia hbn haf hap htk
+  subst hia hbn haf hap
+  have hha : ha = false := wa.flag rfl
+  have hfb : fb = false := (wb.noIt rfl).1
+  have hhb : hb = false := (wb.noIt rfl).2.1
+  subst hha hfb hhb
+  have hbf : (iterCore root restart ⟨none, pb, false, false, bb⟩).iterForSd = false := by
+    rw [iterCore_eq]
+    cases pb with
+    | none => rfl
+    | some x =>
+      simp only [startIt]
+      split
+      · split <;> rfl
+      · rfl
+  cases op with
+  | iter =>
+    simp only [step, iter, hbe]
+    have ha' : iterCore root restart ⟨some ia, none, true, false, ba⟩ = ⟨none, ia, none, false⟩ := rfl
+    rw [ha']
+    refine ⟨rfl, Or.inl ⟨htk, ?_, ?_, rfl, hrel, wf_some wa.held (fun h => nomatch h),
+      wf_some wb.held (by rw [hbf]; exact fun h => nomatch h)⟩⟩
+    · simp only [hbp, ORel]
+    · simp only [hbf]
+  | next => exact ⟨rfl, Or.inr ⟨htk, wa, wb, rfl, rfl, rfl, hbe, hbp, ia, rfl, hrel⟩⟩
+  | stateDict =>
+    have hg := itGet_rel L hrel
+    simp only [step, stateDict, hbe]
+    refine ⟨trivial, Or.inl ⟨lrel_append htk hg.1, ?_, rfl, rfl, hg.2, wf_some wa.held (fun _ => rfl),
+      wf_some wb.held (fun _ => rfl)⟩⟩
+    simp only [hbp, ORel]
+  | peek =>
+    have hg := itGet_rel L hrel
+    simp only [step, stateDict, hbe]
+    refine ⟨trivial, Or.inl ⟨htk, ?_, rfl, rfl, hg.2, wf_some wa.held (fun _ => rfl),
+      wf_some wb.held (fun _ => rfl)⟩⟩
+    simp only [hbp, ORel]
+  | load i =>
+    have hget := lrel_get htk i
+    simp only [step]
+    cases h1 : ta[i]? with
+    | none =>
+      cases h2 : tb[i]? with
+      | none => exact ⟨rfl, Or.inr ⟨htk, wa, wb, rfl, rfl, rfl, hbe, hbp, ia, rfl, hrel⟩⟩
+      | some y => rw [h1, h2] at hget; exact absurd hget (by simp [ORel])
+    | some x =>
+      cases h2 : tb[i]? with
+      | none => rw [h1, h2] at hget; exact absurd hget (by simp [ORel])
+      | some y =>
+        rw [h1, h2] at hget
+        refine ⟨rfl, Or.inl ⟨htk, hget, rfl, rfl, trivial, ?_, ?_⟩⟩
+        · exact ⟨(itRel_held L hrel).1, (fun h => nomatch h), fun _ => ⟨rfl, rfl, (fun h => nomatch h)⟩⟩
+        · exact ⟨wb.held, (fun h => nomatch h), fun _ => ⟨rfl, rfl, (fun h => nomatch h)⟩⟩
+  | abandon => exact ⟨rfl, Or.inr ⟨htk, wa, wb, rfl, rfl, rfl, hbe, hbp, ia, rfl, hrel⟩⟩
+  | fresh => exact ⟨rfl, Or.inl ⟨htk, lrSt_init L⟩⟩
 
 theorem transparent_aux (hne : NoError root) (restart : Bool) (ops : List Op) {a b : Sys root}
-    (h : LR L a b) (hp : peekOk root restart a ops = true) (ga : good root restart a ops = true)
+    (h : LR L a b ∨ PU L restart a b) (ga : good root restart a ops = true)
     (gb : good root restart b (erasePeek ops) = true) :
     obsSkipPeek root restart a ops = obs root restart b (erasePeek ops) := by
   induction ops generalizing a b with
   | nil => rfl
   | cons op ops ih =>
+    -- an op other than `peek`, on both sides
+    have both : ∀ (o : Op), o ≠ .peek → (o = .iter → okIter root a.st = true ∧ okIter root b.st = true) →
+        (step root restart a o).1 = (step root restart b o).1 ∧
+          (LR L (step root restart a o).2 (step root restart b o).2 ∨
+            PU L restart (step root restart a o).2 (step root restart b o).2) := by
+      intro o _ hok
+      rcases h with h | h
+      · have hs := step_LR L hne restart h o (Or.inl (by
+          cases o with
+          | iter => exact ⟨okIter_OkIter (hok rfl).1, okIter_OkIter (hok rfl).2⟩
+          | _ => exact ⟨trivial, trivial⟩))
+        exact ⟨hs.1, Or.inl hs.2⟩
+      · exact step_PU L restart h o
     cases op with
     | peek =>
-      simp only [peekOk, Bool.and_eq_true] at hp
       simp only [obsSkipPeek, erasePeek]
-      exact ih (peek_left L restart h hp.1) hp.2 ga gb
+      exact ih (peek_left L hne restart h) ga gb
     | iter =>
       simp only [good, Bool.and_eq_true, erasePeek] at ga gb
-      have hs := step_LR L hne restart h .iter (Or.inl ⟨okIter_OkIter ga.1, okIter_OkIter gb.1⟩)
+      have hs := both .iter (fun hc => nomatch hc) (fun _ => ⟨ga.1, gb.1⟩)
       simp only [obsSkipPeek, erasePeek, obs]
-      rw [hs.1, ih hs.2 hp ga.2 gb.2]
+      rw [hs.1, ih hs.2 ga.2 gb.2]
     | next =>
-      have hs := step_LR L hne restart h .next (Or.inl ⟨trivial, trivial⟩)
+      have hs := both .next (fun hc => nomatch hc) (fun hc => nomatch hc)
       simp only [obsSkipPeek, erasePeek, obs]
-      rw [hs.1, ih hs.2 hp ga gb]
+      rw [hs.1, ih hs.2 ga gb]
     | stateDict =>
-      have hs := step_LR L hne restart h .stateDict (Or.inl ⟨trivial, trivial⟩)
+      have hs := both .stateDict (fun hc => nomatch hc) (fun hc => nomatch hc)
       simp only [obsSkipPeek, erasePeek, obs]
-      rw [hs.1, ih hs.2 hp ga gb]
+      rw [hs.1, ih hs.2 ga gb]
     | load i =>
-      have hs := step_LR L hne restart h (.load i) (Or.inl ⟨trivial, trivial⟩)
+      have hs := both (.load i) (fun hc => nomatch hc) (fun hc => nomatch hc)
       simp only [obsSkipPeek, erasePeek, obs]
-      rw [hs.1, ih hs.2 hp ga gb]
+      rw [hs.1, ih hs.2 ga gb]
     | abandon =>
-      have hs := step_LR L hne restart h .abandon (Or.inl ⟨trivial, trivial⟩)
+      have hs := both .abandon (fun hc => nomatch hc) (fun hc => nomatch hc)
       simp only [obsSkipPeek, erasePeek, obs]
-      rw [hs.1, ih hs.2 hp ga gb]
+      rw [hs.1, ih hs.2 ga gb]
     | fresh =>
-      have hs := step_LR L hne restart h .fresh (Or.inl ⟨trivial, trivial⟩)
+      have hs := both .fresh (fun hc => nomatch hc) (fun hc => nomatch hc)
       simp only [obsSkipPeek, erasePeek, obs]
-      rw [hs.1, ih hs.2 hp ga gb]
+      rw [hs.1, ih hs.2 ga gb]
 
 /-! ### Loading a state dict gives the same continuation whatever the loader did before (C08) -/
 
-theorem iterCore_load (restart : Bool) (s : State root) (sd : SD root) :
-    iterCore root restart (load root s sd) = startIt root restart (some sd) false (itOr s.it) := by
-  obtain ⟨si, sp, sf, sh⟩ := s
-  rw [iterCore_eq]
-  cases si <;> rfl
+theorem held_load_base {s : State root} (h : LRSt L s s) (x : SD root) : Held (load root s x).base := by
+  obtain ⟨si, sp, sf, sh, sb⟩ := s
+  have hi := h.it
+  have w := h.wfa
+  cases si with
+  | none => cases sf <;> exact w.held
+  | some i =>
+    cases sf
+    · exact w.held
+    · exact (itRel_held L hi).1
 
 theorem load_iter_LR (hne : NoError root) (restart : Bool) {a b : Sys root} (ha : LR L a a) (hb : LR L b b)
     (ht : LRel (TQ L) a.toks b.toks) (i : Nat) (hi : i < a.toks.length) :
@@ -617,10 +847,11 @@ theorem load_iter_LR (hne : NoError root) (restart : Bool) {a b : Sys root} (ha 
   have hib : i < b.toks.length := ht.1 ▸ hi
   rw [List.getElem?_eq_getElem hi, List.getElem?_eq_getElem hib] at hget
   obtain ⟨e1, e2, e3, e4, e5, e6, e7⟩ :=
-    startSome_rel L hne restart false false (held_itOr L ha.st.it) (held_itOr L hb.st.it) hget
+    startSome_rel L hne restart false false (held_loadIt L ha.st) (held_loadIt L hb.st) hget
   simp only [exec, step, List.getElem?_eq_getElem hi, List.getElem?_eq_getElem hib, iter, iterCore_load, e1, e2]
-  exact ⟨ht, by simp only [e3, e4, ORel], by simp only [e5, e6], rfl, e7⟩
-
+  exact ⟨ht, by simp only [e3, e4, ORel], by simp only [e5, e6], rfl, e7,
+    wf_some (held_load_base L ha.st _) (by rw [e5]; exact (fun h => nomatch h)),
+    wf_some (held_load_base L hb.st _) (by rw [e6]; exact (fun h => nomatch h))⟩
 
 /-! ### Assembly in terms of histories -/
 
@@ -655,7 +886,7 @@ theorem exec_append (restart : Bool) (xs ys : List Op) (s : Sys root) :
 
 theorem step_stateDict_some (restart : Bool) (s : Sys root) {its : It root} (h : s.st.it = some its) :
     (step root restart s .stateDict).2 = ⟨{ s.st with it := some (itGet root its).2 }, s.toks ++ [(itGet root its).1]⟩ := by
-  obtain ⟨⟨si, sp, sf, sh⟩, st⟩ := s
+  obtain ⟨⟨si, sp, sf, sh, sb⟩, st⟩ := s
   simp only at h
   subst h
   rfl
